@@ -139,7 +139,17 @@ def gen_spec(rng):
         if rng.random() < 0.4:
             attrs[a] = gen_value(rng, for_sqlstate=(a == "sqlstate"))
     args = [gen_value(rng, True) for _ in range(rng.choice([0, 0, 1, 1, 2, 3]))]
-    return {"name": rng.choice(NAMES), "base": base, "attrs": attrs, "args": args}
+    spec = {"name": rng.choice(NAMES), "base": base, "attrs": attrs, "args": args}
+    if rng.random() < 0.12:
+        # the exception type has its own attribute `args` (a dataclass field, a class constant) that shadows BaseException.args:
+        # a value that cannot be iterated carries no arguments; a list is read like the tuple
+        shadow = rng.choice([NONE, {"t": "int", "v": "503"}, {"t": "int", "v": "0"}, {"t": "bool", "v": True}, {"t": "float", "v": "nan"},
+                             {"t": "float", "v": "429.0"}, {"t": "obj"}, {"t": "bigint", "exp": 4300, "neg": False}, {"t": "list_of_args"},
+                             {"t": "list_of_args"}])
+        spec["args_attr"] = shadow
+        if shadow["t"] != "list_of_args":
+            spec["args"] = []
+    return spec
 
 
 def exhaustive_ints():
@@ -255,7 +265,7 @@ def oracle(spec, o):
 
 def run(chk):
     chk.assumptions += [
-        "the value universe of the property: None, bool, int, float, str, bytes, list/tuple/dict, plain objects; args is a tuple",
+        "the value universe of the property: None, bool, int, float, str, bytes, list/tuple/dict, plain objects; args is a tuple, or an attribute of the type that shadows BaseException.args and holds None, a number, a plain object or a list",
         "CPython semantics of truthiness, isinstance(bool, int), int ==, str(), re \\\\b / \\\\w as transcribed in Classify.v; the "
         "harness supplies code points, the \\\\w flag per character and str() per value",
         "optional libraries absent in this sandbox: only the import-failure branch is exercised and claimed",
